@@ -38,6 +38,19 @@ pub fn tool(cfg: &Cfg, name: &str) -> Result<PathBuf, String> {
     }
 }
 
+/// Children must not outlive the harness (e.g. when the driver's watchdog kills it): ask the
+/// kernel to SIGKILL them when the spawning thread goes away. (Case threads live until all their
+/// cases are done and every child is reaped inside its case.)
+fn die_with_parent(cmd: &mut Command) {
+    use std::os::unix::process::CommandExt;
+    unsafe {
+        cmd.pre_exec(|| {
+            libc::prctl(libc::PR_SET_PDEATHSIG, libc::SIGKILL);
+            Ok(())
+        });
+    }
+}
+
 /// A child process that is killed and reaped when the guard goes out of scope.
 pub struct Guard(pub Child);
 
@@ -87,6 +100,7 @@ pub fn run_bounded(cmd: &mut Command, log: &Path, timeout: Duration) -> Result<F
     let so = std::fs::File::create(&outp).map_err(|e| RunError::Spawn(e.to_string()))?;
     let se = std::fs::File::create(&errp).map_err(|e| RunError::Spawn(e.to_string()))?;
     cmd.stdin(Stdio::null()).stdout(so).stderr(se);
+    die_with_parent(cmd);
     let child = cmd.spawn().map_err(|e| RunError::Spawn(e.to_string()))?;
     let mut g = Guard(child);
     let start = Instant::now();
@@ -113,6 +127,7 @@ pub fn spawn_logged(cmd: &mut Command, log: &Path) -> Result<Guard, String> {
     let so = std::fs::File::create(log.with_extension("out")).map_err(|e| e.to_string())?;
     let se = std::fs::File::create(log.with_extension("err")).map_err(|e| e.to_string())?;
     cmd.stdin(Stdio::null()).stdout(so).stderr(se);
+    die_with_parent(cmd);
     cmd.spawn().map(Guard).map_err(|e| e.to_string())
 }
 
